@@ -16,3 +16,5 @@ func (h *history) sentinel() (<-chan error, func()) { return rate.VerifSentinel(
 func lockTree(l rate.Limiter)          { rate.VerifLock(l) }
 func unlockTree(l rate.Limiter)        { rate.VerifUnlock(l) }
 func tickConsumed(l rate.Limiter) bool { return rate.VerifTickConsumed(l) }
+func rlockTree(l rate.Limiter)         { rate.VerifRLock(l) }
+func runlockTree(l rate.Limiter)       { rate.VerifRUnlock(l) }
